@@ -8,5 +8,5 @@ os.makedirs(os.path.join(HERE, "evidence"), exist_ok=True)
 os.makedirs(os.path.join(HERE, "replays", "found"), exist_ok=True)
 import numpy, scipy, numba, cotengra  # noqa
 import quimb  # noqa
-assert quimb.__file__.startswith("/repo/"), quimb.__file__
+assert quimb.__file__.startswith("/repo/") or os.environ.get("VERIF_REPO_COPY"), quimb.__file__
 print("setup ok: quimb from", quimb.__file__)
